@@ -52,12 +52,18 @@ mutual
     | .appendLit buf _ => if D.contains buf then some D else none
     | .append buf e _ => if D.contains buf && allIn D (readsE e) then some D else none
     | .var x e => if allIn D (readsE e) then some (x :: D) else none
+    | .varEmpty x => some (x :: D)
     | .ifs conds => if scopedConds D conds then some D else none
     | .varLength x list => if D.contains list then some (x :: D) else none
     | .varIndex x list idx => if D.contains list && D.contains idx then some (x :: D) else none
     | .forUp i lim body =>
       -- `var i = 0` runs first; the test reads `i` and `lim`
       if D.contains lim && (scopedStmts (i :: D) body).isSome then some (i :: D) else none
+    | .forStep i lim init incr body =>
+      -- `var i = init` runs first; the test reads `i` and `lim`, the update `i` and `incr`
+      if D.contains lim && allIn D (readsE init) && allIn (i :: D) (readsE incr) && (scopedStmts (i :: D) body).isSome
+      then some (i :: D) else none
+    | .switchS e cases => if allIn D (readsE e) && scopedCases D cases then some D else none
     | .ifPos lim body els =>
       if D.contains lim && (scopedStmts D body).isSome && (scopedStmts D els).isSome then some D else none
   def scopedStmts (D : List Bytes) : JsStmts → Option (List Bytes)
@@ -66,6 +72,11 @@ mutual
       match scopedStmt D s with
       | none => none
       | some D1 => scopedStmts D1 r
+  def scopedCases (D : List Bytes) : JsCases → Bool
+    | .nil => true
+    | .dflt body => (scopedStmts D body).isSome
+    | .cons labels body rest =>
+      labels.all (fun j => allIn D (readsE j)) && (scopedStmts D body).isSome && scopedCases D rest
   def scopedConds (D : List Bytes) : JsConds → Bool
     | .nil => true
     | .els body => (scopedStmts D body).isSome
@@ -205,6 +216,21 @@ theorem toAst_reads (D : List Bytes) (sc : Scope) (hc : Covers D sc) :
             exact allIn_append (toAst_reads D sc hc a ja ha) (toAst_reads D sc hc b jb hb)
           · cases h
 
+theorem astList_reads (D : List Bytes) (sc : Scope) (hc : Covers D sc) : ∀ (values : List Expr) (js : List JsExpr),
+    astList sc values = some js → js.all (fun j => allIn D (readsE j)) = true
+  | [], js, h => by simp only [astList, Option.some.injEq] at h; subst h; rfl
+  | v :: r, js, h => by
+    unfold astList at h
+    cases hj : toAst sc v with
+    | none => simp [hj] at h
+    | some j =>
+      cases hr : astList sc r with
+      | none => simp [hj, hr] at h
+      | some jr =>
+        simp only [hj, hr, Option.some.injEq] at h; subst h
+        simp only [List.all_cons, Bool.and_eq_true]
+        exact ⟨toAst_reads D sc hc v j hj, astList_reads D sc hc r jr hr⟩
+
 /-! ## statements -/
 
 def Sub (D D' : List Bytes) : Prop := ∀ g, D.contains g = true → D'.contains g = true
@@ -255,6 +281,24 @@ theorem covers_makevar {D : List Bytes} {sc : Scope} (hs : ScOk sc) (h : Covers 
       exact contains_head _ _
     · exact Sub.cons _ _ g (h k g hl)
 
+theorem covers_bind {D : List Bytes} {sc : Scope} {g : Bytes} (h : Covers D sc) (hg : D.contains g = true) (x : Bytes) :
+    Covers D (sc.bind x g) := by
+  intro k g' hl
+  cases hst : sc.stack with
+  | nil => simp [Scope.bind, Scope.lookup, hst, Scope.setTop, Scope.lookupIn] at hl
+  | cons f st =>
+    have hlook : (sc.bind x g).lookup k = if x == k then some g else sc.lookup k := by
+      simp only [Scope.bind, Scope.lookup, hst, Scope.setTop, Scope.lookupIn, C04c.frameGet_frameSet]
+      by_cases hnk : (x == k) = true
+      · simp [hnk]
+      · simp [hnk]
+    rw [hlook] at hl
+    split at hl
+    · simp only [Option.some.injEq] at hl
+      subst hl
+      exact hg
+    · exact h k g' hl
+
 theorem covers_pushForEach {D : List Bytes} {sc : Scope} (h : Covers D sc) (v : Bytes) :
     Covers ((sc.pushForEach v).1.1 :: (sc.pushForEach v).1.2.2.2 :: (sc.pushForEach v).1.2.2.1 :: D) (sc.pushForEach v).2 := by
   intro k g hl
@@ -271,16 +315,32 @@ theorem covers_pushForEach {D : List Bytes} {sc : Scope} (h : Covers D sc) (v : 
       · simp only [h1, h2, h3, Bool.false_eq_true, if_false] at hl
         exact Sub.cons _ _ g (Sub.cons _ _ g (Sub.cons _ _ g (h k g hl)))
 
+theorem covers_pushForRange {D : List Bytes} {sc : Scope} (h : Covers D sc) (v : Bytes) :
+    Covers ((sc.pushForRange v).1.1 :: (sc.pushForRange v).1.2 :: D) (sc.pushForRange v).2 := by
+  intro k g hl
+  simp only [Scope.pushForRange, Scope.lookup, Scope.lookupIn, C04c.frameGet_frameSet, frameGet?] at hl
+  by_cases h1 : (Scope.kIndex ++ v == k) = true
+  · simp only [h1, if_true, Option.some.injEq] at hl; subst hl
+    simp [Scope.pushForRange]
+  · by_cases h2 : (Scope.kLimit ++ v == k) = true
+    · simp only [h1, h2, Bool.false_eq_true, if_false, if_true, Option.some.injEq] at hl; subst hl
+      simp [Scope.pushForRange]
+    · by_cases h3 : (v == k) = true
+      · simp only [h1, h2, h3, Bool.false_eq_true, if_false, if_true, Option.some.injEq] at hl; subst hl
+        simp [Scope.pushForRange]
+      · simp only [h1, h2, h3, Bool.false_eq_true, if_false] at hl
+        exact Sub.cons _ _ g (Sub.cons _ _ g (h k g hl))
+
 section
-variable (ae : Autoescape) (buf : Bytes)
+variable (ae : Autoescape)
 
 mutual
-  theorem scoped_cmd : ∀ (c : Cmd) (sc : Scope) (r : JsStmts × Scope) (D : List Bytes), toCmd ae buf c sc = some r →
+  theorem scoped_cmd : ∀ (c : Cmd) (buf : Bytes) (sc : Scope) (r : JsStmts × Scope) (D : List Bytes), toCmd ae buf c sc = some r →
       ScOk sc → Covers D sc → D.contains buf = true → After D r
-    | .rawText p t, sc, r, D, h, hs, hc, hb => by
+    | .rawText p t, buf, sc, r, D, h, hs, hc, hb => by
       simp only [toCmd, Option.some.injEq] at h; subst h
       exact ⟨D, by simp only [scopedStmts_one, scopedStmt, hb, if_true], hc, Sub.refl D⟩
-    | .print p arg dirs, sc, r, D, h, hs, hc, hb => by
+    | .print p arg dirs, buf, sc, r, D, h, hs, hc, hb => by
       unfold toCmd at h
       split at h
       · split at h
@@ -290,7 +350,7 @@ mutual
             Sub.refl D⟩
         · cases h
       · cases h
-    | .letValue p x e, sc, r, D, h, hs, hc, hb => by
+    | .letValue p x e, buf, sc, r, D, h, hs, hc, hb => by
       unfold toCmd at h
       split at h
       · cases h
@@ -299,85 +359,115 @@ mutual
           simp only [Option.some.injEq] at h; subst h
           exact ⟨_, by simp [scopedStmts_one, scopedStmt, toAst_reads D sc hc e j hj], covers_makevar hs hc x, Sub.cons _ _⟩
         · cases h
-    | .ifc p conds, sc, r, D, h, hs, hc, hb => by
+    | .ifc p conds, buf, sc, r, D, h, hs, hc, hb => by
       unfold toCmd at h
       split at h
       · rename_i rc hrc
         simp only [Option.some.injEq] at h; subst h
-        have := scoped_conds conds sc rc D hrc hs hc hb
-        obtain ⟨h1, _⟩ := toConds_scope ae buf conds sc rc hrc hs
+        have := scoped_conds conds buf sc rc D hrc hs hc hb
+        obtain ⟨h1, _⟩ := toConds_scope ae conds buf sc rc hrc hs
         exact ⟨D, by simp [scopedStmts_one, scopedStmt, this], hc.stack h1, Sub.refl D⟩
       · cases h
-    | .forc p v list body none, sc, r, D, h, hs, hc, hb => by
-      have hscope := toCmd_scope ae buf _ sc r h hs
+    | .forc p v list body none, buf, sc, r, D, h, hs, hc, hb => by
       unfold toCmd at h
+      rcases loopJoin_some h with h | h
+      case inr =>
+        obtain ⟨hv, _, args, l, c, jl, ji, rbv, pc, _, _, _, _, hjl, hji, hrb, rfl⟩ := rangeJoin_some h
+        obtain ⟨p1, p2, _⟩ := scOk_pushForRange hs v hv
+        obtain ⟨_, b2, _⟩ := toBody_scope ae body buf _ rbv hrb p1
+        have hst : rbv.2.pop.stack = sc.stack := by simp only [Scope.pop]; rw [b2, p2]
+        have hc2 := covers_pushForRange hc v
+        obtain ⟨D4, h4, _, _⟩ := scoped_body body buf _ rbv _ hrb p1 hc2 (Sub.cons _ _ _ (Sub.cons _ _ _ hb))
+        have hsub : Sub D ((sc.pushForRange v).1.1 :: (sc.pushForRange v).1.2 :: D) := (Sub.cons _ D).trans (Sub.cons _ _)
+        refine ⟨_, ?_, (hc.mono hsub).stack hst, hsub⟩
+        have r1 := toAst_reads D sc hc l jl hjl
+        have r2 := allIn_mono (toAst_reads D sc hc _ ji hji) (Sub.cons (sc.pushForRange v).1.2 D)
+        simp [rangeStmts, JsStmts.one, scopedStmts, scopedStmt, r1, r2, h4, readsE, allIn_nil]
       obtain ⟨hv, _, j, rbv, hj, hrb, he⟩ := forcJoin_some h
       simp only at he
       subst he
-      obtain ⟨p1, p2, _⟩ := scOk_pushForEach hs v
-      obtain ⟨_, b2, _⟩ := toBody_scope ae buf body _ rbv hrb p1
+      obtain ⟨p1, p2, _⟩ := scOk_pushForEach hs v hv
+      obtain ⟨_, b2, _⟩ := toBody_scope ae body buf _ rbv hrb p1
       have hst : rbv.2.pop.stack = sc.stack := by simp only [Scope.pop]; rw [b2, p2]
       -- inside the loop
       have hsub : Sub D ((sc.pushForEach v).1.2.2.1 :: (sc.pushForEach v).1.2.1 :: D) :=
         (Sub.cons _ D).trans (Sub.cons _ _)
       have hc3 := covers_pushForEach (hc.mono (Sub.cons (sc.pushForEach v).1.2.1 D)) v
-      obtain ⟨D4, h4, _, _⟩ := scoped_body body _ rbv _ hrb p1 hc3
+      obtain ⟨D4, h4, _, _⟩ := scoped_body body buf _ rbv _ hrb p1 hc3
         (Sub.cons _ _ _ (Sub.cons _ _ _ (Sub.cons _ _ _ (Sub.cons _ _ _ hb))))
       refine ⟨(sc.pushForEach v).1.2.2.2 :: (sc.pushForEach v).1.2.2.1 :: (sc.pushForEach v).1.2.1 :: D, ?_,
         (hc.mono (hsub.trans (Sub.cons _ _))).stack hst, hsub.trans (Sub.cons _ _)⟩
       simp [foreachStmts, JsStmts.one, scopedStmts, scopedStmt, toAst_reads D sc hc list j hj, h4]
-    | .forc p v list body (some ie), sc, r, D, h, hs, hc, hb => by
+    | .forc p v list body (some ie), buf, sc, r, D, h, hs, hc, hb => by
       unfold toCmd at h
+      have h := (loopJoin_some h).resolve_right (by intro h'; have := (rangeJoin_some h').2.1; simp at this)
       obtain ⟨hv, _, j, rbv, hj, hrb, he⟩ := forcJoin_some h
       simp only at he
       obtain ⟨re, hre, rfl⟩ := he
-      obtain ⟨p1, p2, p3⟩ := scOk_pushForEach hs v
-      obtain ⟨_, b2, b3⟩ := toBody_scope ae buf body _ rbv hrb p1
+      obtain ⟨p1, p2, p3⟩ := scOk_pushForEach hs v hv
+      obtain ⟨_, b2, b3⟩ := toBody_scope ae body buf _ rbv hrb p1
       have hst : rbv.2.pop.stack = sc.stack := by simp only [Scope.pop]; rw [b2, p2]
       have hn : sc.n ≤ rbv.2.pop.n := by simp only [Scope.pop]; omega
       have hs' : ScOk rbv.2.pop := scOk_of_stack hs hst hn
-      obtain ⟨c1, _⟩ := toBlock_scope ae buf ie _ re hre hs'
+      obtain ⟨c1, _⟩ := toBlock_scope ae ie buf _ re hre hs'
       have hsub : Sub D ((sc.pushForEach v).1.2.2.1 :: (sc.pushForEach v).1.2.1 :: D) :=
         (Sub.cons _ D).trans (Sub.cons _ _)
       have hc3 := covers_pushForEach (hc.mono (Sub.cons (sc.pushForEach v).1.2.1 D)) v
-      obtain ⟨D4, h4, _, _⟩ := scoped_body body _ rbv _ hrb p1 hc3
+      obtain ⟨D4, h4, _, _⟩ := scoped_body body buf _ rbv _ hrb p1 hc3
         (Sub.cons _ _ _ (Sub.cons _ _ _ (Sub.cons _ _ _ (Sub.cons _ _ _ hb))))
-      obtain ⟨D5, h5, _⟩ := scoped_block ie _ re _ hre hs' ((hc.mono hsub).stack hst) (hsub _ hb)
+      obtain ⟨D5, h5, _⟩ := scoped_block ie buf _ re _ hre hs' ((hc.mono hsub).stack hst) (hsub _ hb)
       refine ⟨(sc.pushForEach v).1.2.2.1 :: (sc.pushForEach v).1.2.1 :: D, ?_, (hc.mono hsub).stack (c1.trans hst), hsub⟩
       simp [foreachStmts, JsStmts.one, scopedStmts, scopedStmt, toAst_reads D sc hc list j hj, h4, h5]
-    | .msg .., _, _, _, h, _, _, _ => by simp [toCmd] at h
-    | .css .., _, _, _, h, _, _, _ => by simp [toCmd] at h
-    | .debugger .., _, _, _, h, _, _, _ => by simp [toCmd] at h
-    | .log .., _, _, _, h, _, _, _ => by simp [toCmd] at h
-    | .switch .., _, _, _, h, _, _, _ => by simp [toCmd] at h
-    | .call .., _, _, _, h, _, _, _ => by simp [toCmd] at h
-    | .letContent .., _, _, _, h, _, _, _ => by simp [toCmd] at h
-    | .headerParam .., _, _, _, h, _, _, _ => by simp [toCmd] at h
-    | .namespace .., _, _, _, h, _, _, _ => by simp [toCmd] at h
-    | .template .., _, _, _, h, _, _, _ => by simp [toCmd] at h
-    | .soyDoc .., _, _, _, h, _, _, _ => by simp [toCmd] at h
-  theorem scoped_body : ∀ (b : Block) (sc : Scope) (r : JsStmts × Scope) (D : List Bytes), toBody ae buf b sc = some r →
+    | .msg .., _, _, _, _, h, _, _, _ => by simp [toCmd] at h
+    | .css .., _, _, _, _, h, _, _, _ => by simp [toCmd] at h
+    | .debugger .., _, _, _, _, h, _, _, _ => by simp [toCmd] at h
+    | .log .., _, _, _, _, h, _, _, _ => by simp [toCmd] at h
+    | .switch p value cases, buf, sc, r, D, h, hs, hc, hb => by
+      unfold toCmd at h
+      split at h
+      · rename_i j rc hj hrc
+        simp only [Option.some.injEq] at h; subst h
+        have := scoped_cases cases buf sc rc D hrc hs hc hb
+        obtain ⟨h1, _⟩ := toCases_scope ae cases buf sc rc hrc hs
+        exact ⟨D, by simp [scopedStmts_one, scopedStmt, this, toAst_reads D sc hc value j hj], hc.stack h1, Sub.refl D⟩
+      · cases h
+    | .call .., _, _, _, _, h, _, _, _ => by simp [toCmd] at h
+    | .letContent p name body, buf, sc, r, D, h, hs, hc, hb => by
+      unfold toCmd at h
+      obtain ⟨hname, rbv, hrb, rfl⟩ := letJoin_some h
+      have hs' : ScOk (sc.genname name).2 := scOk_of_stack hs rfl (Nat.le_succ _)
+      obtain ⟨a1, a2⟩ := toBlock_scope ae body _ _ rbv hrb hs'
+      have hc' : Covers ((sc.genname name).1 :: D) (sc.genname name).2 := (hc.mono (Sub.cons _ D)).stack rfl
+      obtain ⟨D1, h1, hsub⟩ := scoped_block body _ _ rbv _ hrb hs' hc' (contains_head _ _)
+      refine ⟨D1, by simp [scopedStmts, scopedStmt, h1], ?_, (Sub.cons _ D).trans hsub⟩
+      have hcr : Covers D1 rbv.2 := ((hc.mono (Sub.cons _ D)).mono hsub).stack a1
+      exact covers_bind hcr (hsub _ (contains_head _ _)) name
+    | .headerParam .., _, _, _, _, h, _, _, _ => by simp [toCmd] at h
+    | .namespace .., _, _, _, _, h, _, _, _ => by simp [toCmd] at h
+    | .template .., _, _, _, _, h, _, _, _ => by simp [toCmd] at h
+    | .soyDoc .., _, _, _, _, h, _, _, _ => by simp [toCmd] at h
+  theorem scoped_body : ∀ (b : Block) (buf : Bytes) (sc : Scope) (r : JsStmts × Scope) (D : List Bytes), toBody ae buf b sc = some r →
       ScOk sc → Covers D sc → D.contains buf = true → After D r
-    | .mk p cmds, sc, r, D, h, hs, hc, hb => by
+    | .mk p cmds, buf, sc, r, D, h, hs, hc, hb => by
       unfold toBody at h
-      exact scoped_cmds cmds sc r D h hs hc hb
-  theorem scoped_block : ∀ (b : Block) (sc : Scope) (r : JsStmts × Scope) (D : List Bytes), toBlock ae buf b sc = some r →
+      exact scoped_cmds cmds buf sc r D h hs hc hb
+  theorem scoped_block : ∀ (b : Block) (buf : Bytes) (sc : Scope) (r : JsStmts × Scope) (D : List Bytes), toBlock ae buf b sc = some r →
       ScOk sc → Covers D sc → D.contains buf = true → ∃ D', scopedStmts D r.1 = some D' ∧ Sub D D'
-    | .mk p cmds, sc, r, D, h, hs, hc, hb => by
+    | .mk p cmds, buf, sc, r, D, h, hs, hc, hb => by
       unfold toBlock at h
       split at h
       · rename_i rc hrc
         simp only [Option.some.injEq] at h; subst h
         have hc' : Covers D sc.push := fun k g hl => hc k g (by rw [← lookup_push]; exact hl)
-        obtain ⟨D', h1, _, h3⟩ := scoped_cmds cmds sc.push rc D hrc (scOk_push hs.2) hc' hb
+        obtain ⟨D', h1, _, h3⟩ := scoped_cmds cmds buf sc.push rc D hrc (scOk_push hs.2) hc' hb
         exact ⟨D', h1, h3⟩
       · cases h
-  theorem scoped_cmds : ∀ (cs : CmdList) (sc : Scope) (r : JsStmts × Scope) (D : List Bytes), toCmds ae buf cs sc = some r →
+  theorem scoped_cmds : ∀ (cs : CmdList) (buf : Bytes) (sc : Scope) (r : JsStmts × Scope) (D : List Bytes), toCmds ae buf cs sc = some r →
       ScOk sc → Covers D sc → D.contains buf = true → After D r
-    | .nil, sc, r, D, h, hs, hc, hb => by
+    | .nil, buf, sc, r, D, h, hs, hc, hb => by
       simp only [toCmds, Option.some.injEq] at h; subst h
       exact ⟨D, rfl, hc, Sub.refl D⟩
-    | .cons c rest, sc, r, D, h, hs, hc, hb => by
+    | .cons c rest, buf, sc, r, D, h, hs, hc, hb => by
       unfold toCmds at h
       split at h
       · cases h
@@ -386,16 +476,30 @@ mutual
         · cases h
         · rename_i r2 h2
           simp only [Option.some.injEq] at h; subst h
-          obtain ⟨D1, a1, a2, a3⟩ := scoped_cmd c sc r1 D h1 hs hc hb
-          obtain ⟨s1, _, _⟩ := toCmd_scope ae buf c sc r1 h1 hs
-          obtain ⟨D2, b1, b2, b3⟩ := scoped_cmds rest r1.2 r2 D1 h2 s1 a2 (a3 _ hb)
+          obtain ⟨D1, a1, a2, a3⟩ := scoped_cmd c buf sc r1 D h1 hs hc hb
+          obtain ⟨s1, _, _⟩ := toCmd_scope ae c buf sc r1 h1 hs
+          obtain ⟨D2, b1, b2, b3⟩ := scoped_cmds rest buf r1.2 r2 D1 h2 s1 a2 (a3 _ hb)
           exact ⟨D2, by rw [scopedStmts_append, a1]; exact b1, b2, a3.trans b3⟩
-  theorem scoped_conds : ∀ (cs : CondList) (sc : Scope) (r : JsConds × Scope) (D : List Bytes), toConds ae buf cs sc = some r →
+  theorem scoped_cases : ∀ (cs : CaseList) (buf : Bytes) (sc : Scope) (r : JsCases × Scope) (D : List Bytes), toCases ae buf cs sc = some r →
+      ScOk sc → Covers D sc → D.contains buf = true → scopedCases D r.1 = true
+    | .nil, buf, sc, r, D, h, hs, hc, hb => by
+      simp only [toCases, Option.some.injEq] at h; subst h
+      rfl
+    | .cons p values body rest, buf, sc, r, D, h, hs, hc, hb => by
+      unfold toCases at h
+      obtain ⟨rbv, hrb, hcj⟩ := caseJoin_some h
+      obtain ⟨D1, a1, _⟩ := scoped_block body buf sc rbv D hrb hs hc hb
+      obtain ⟨e1, e2⟩ := toBlock_scope ae body buf sc rbv hrb hs
+      rcases hcj with ⟨_, _, rfl⟩ | ⟨_, js, rr, hjs, hrr, rfl⟩
+      · simp [scopedCases, a1]
+      · have := scoped_cases rest buf rbv.2 rr D hrr (scOk_of_stack hs e1 e2) (hc.stack e1) hb
+        simp [scopedCases, a1, this, astList_reads D sc hc values js hjs]
+  theorem scoped_conds : ∀ (cs : CondList) (buf : Bytes) (sc : Scope) (r : JsConds × Scope) (D : List Bytes), toConds ae buf cs sc = some r →
       ScOk sc → Covers D sc → D.contains buf = true → scopedConds D r.1 = true
-    | .nil, sc, r, D, h, hs, hc, hb => by
+    | .nil, buf, sc, r, D, h, hs, hc, hb => by
       simp only [toConds, Option.some.injEq] at h; subst h
       rfl
-    | .cons p (some c) body rest, sc, r, D, h, hs, hc, hb => by
+    | .cons p (some c) body rest, buf, sc, r, D, h, hs, hc, hb => by
       unfold toConds at h
       simp only at h
       split at h
@@ -403,19 +507,19 @@ mutual
         split at h
         · rename_i rr hr
           simp only [Option.some.injEq] at h; subst h
-          obtain ⟨D1, a1, _⟩ := scoped_block body sc rb D hbk hs hc hb
-          obtain ⟨e1, e2⟩ := toBlock_scope ae buf body sc rb hbk hs
-          have := scoped_conds rest rb.2 rr D hr (scOk_of_stack hs e1 e2) (hc.stack e1) hb
+          obtain ⟨D1, a1, _⟩ := scoped_block body buf sc rb D hbk hs hc hb
+          obtain ⟨e1, e2⟩ := toBlock_scope ae body buf sc rb hbk hs
+          have := scoped_conds rest buf rb.2 rr D hr (scOk_of_stack hs e1 e2) (hc.stack e1) hb
           simp [scopedConds, toAst_reads D sc hc c j hj, a1, this]
         · cases h
       · cases h
-    | .cons p none body rest, sc, r, D, h, hs, hc, hb => by
+    | .cons p none body rest, buf, sc, r, D, h, hs, hc, hb => by
       unfold toConds at h
       simp only at h
       split at h
       · rename_i rb hbk
         simp only [Option.some.injEq] at h; subst h
-        obtain ⟨D1, a1, _⟩ := scoped_block body sc rb D hbk hs hc hb
+        obtain ⟨D1, a1, _⟩ := scoped_block body buf sc rb D hbk hs hc hb
         simp [scopedConds, a1]
       · cases h
 end
@@ -437,7 +541,7 @@ theorem no_undeclared_js_variable_partial (ae : Autoescape) (body : CmdList) (n 
   have hc : Covers [b!"output"] ⟨[[]], n⟩ := by
     intro k g hl
     simp [Scope.lookup, Scope.lookupIn, frameGet?] at hl
-  obtain ⟨D', h1, _, _⟩ := scoped_cmds ae b!"output" body _ r _ h hs hc (by simp)
+  obtain ⟨D', h1, _, _⟩ := scoped_cmds ae body b!"output" _ r _ h hs hc (by simp)
   simp [h1]
 
 /-! ## non-vacuity -/
